@@ -316,6 +316,334 @@ def check_rx_hops(ctx, pairs):
                 ctx.mismatch("Router.process_common_header hop check = Lifetime.rx_hops_ok", inp, r, got)
 
 
+
+# ---------------------------------------------------------------------------------------------------------------------
+# audit round: inputs the first generators never produced (see design/C20.md "Audit round: gaps closed")
+
+class PassThroughVerifier:
+    """stands in for the VerifyService on the receive side: the 'secured message' is the plain message (Common Header |
+    extended header | payload), reported as verified - only the Basic Header handling of the secured branch is examined"""
+
+    def verify(self, request):
+        from flexstack.security.sn_sap import SNVERIFYConfirm, ReportVerify
+        return SNVERIFYConfirm(report=ReportVerify.SUCCESS, certificate_id=b"\x00" * 8, its_aid_length=1,
+                               its_aid=b"\x24", permissions=b"", plain_message=request.message)
+
+
+def float_requests(rng, n):
+    """requested lifetimes in SECONDS that are not whole milliseconds (plus ints): around every piece boundary and
+    every multiple of a base, and random ones"""
+    import math
+    xs = [0, 1, 2, 59, 60, 63, 64, 600, 630, 999, 0.0, 5e-324, 1e-9, 0.0004, 0.0005, 0.000999, 0.0499, 0.04999999,
+          0.0494, 0.0496, 0.05, 0.050001, 0.0999, 0.0996, 1.0496, 1.0499999, 3.1496, 3.1499, 3.9996, 62.9996, 63.0004,
+          63.9996, 629.9996, 630.0004, 639.9996, 599.9996, 999.9994, 999.9996, 999.999]
+    for unit in UNITS:
+        for m in (1, 2, 3, 31, 62, 63, 64):
+            base = m * unit / 1000
+            for d in (-6e-4, -4e-4, -1e-7, 1e-7, 4e-4, 6e-4):
+                if 0 <= base + d < 1000:
+                    xs.append(base + d)
+            xs.append(math.nextafter(base, 0.0))
+            xs.append(math.nextafter(base, 2000.0))
+    for _ in range(n):
+        r = rng.random()
+        if r < 0.4:
+            xs.append(rng.uniform(0, 1000 - 1e-3))
+        elif r < 0.7:
+            xs.append(rng.choice(UNITS) * rng.randrange(0, 70) / 1000 + rng.uniform(-1e-3, 1e-3))
+        else:
+            xs.append(rng.randrange(0, 999_999) / 1000 + rng.choice((0.0004, 0.0006, 0.00049999, 0.00050001, 0.000999)))
+    return [x for x in xs if 0 <= x < 999.9999]
+
+
+def check_lt_seconds(ctx, xs):
+    """GN-DATA.request lifetimes as the upper layer gives them: seconds, float or int, NOT whole milliseconds.
+    The wire lifetime must not exceed the request and must be the largest representable value not exceeding it; the
+    product seconds * 1000 is a float computation, so requests within 1e-9 ms of a millisecond step accept either side"""
+    from fractions import Fraction
+    from flexstack.geonet.basic_header import BasicHeader
+    from flexstack.geonet.mib import MIB
+    mib = MIB()
+    reqs, obs = [], []
+    for x in xs:
+        exact_ms = Fraction(x) * 1000
+        lo = int(exact_ms - Fraction(1, 10 ** 9)) if exact_ms >= Fraction(1, 10 ** 9) else 0
+        hi = int(exact_ms + Fraction(1, 10 ** 9))
+        lt = BasicHeader.initialize_with_mib_request_and_rhl(mib, x, 1).lt
+        val = lt.get_value_in_millis()
+        ctx.count(1, "lt_seconds_int" if isinstance(x, int) else "lt_seconds_submilli")
+        inp = {"op": "lt_request_seconds", "seconds": (x if isinstance(x, int) else x.hex())}
+        ok_vals = {spec_best(lo), spec_best(hi)}
+        if val > hi or val > exact_ms + Fraction(1, 10 ** 9):
+            ctx.property_failure(classify(hi), inp, "wire lifetime exceeds the requested lifetime (request %r s)" % (x,),
+                                 sorted(ok_vals), val)
+        elif val not in ok_vals:
+            ctx.property_failure(classify(hi), inp, "wire lifetime is not the largest representable value not exceeding "
+                                 "the request (request %r s)" % (x,), sorted(ok_vals), val)
+        elif hi >= 50 and lo >= 50 and val == 0:
+            ctx.property_failure(classify(hi), inp, "zero lifetime for a request of at least 50 ms", sorted(ok_vals), val)
+        if lo == hi:
+            reqs.append((1, [lo]))
+            obs.append((inp, [lt.multiplier, lt.base.value]))
+        if val > 0:
+            ctx.nontriv(("lts", inp["seconds"]))
+    if ctx.model.available and reqs:
+        for (inp, got), r in zip(obs, ctx.model.batch(reqs)):
+            if r != got:
+                ctx.mismatch("BasicHeader.initialize_with_mib_request_and_rhl(seconds) = Lifetime.lt_encode(floor ms)",
+                             inp, r, got)
+
+
+def check_code_variants(ctx):
+    """all 256 lifetime codes inside Basic Headers with other version / next-header / reserved / RHL octets: the decoded
+    lifetime depends on the lifetime octet alone"""
+    from flexstack.geonet.basic_header import BasicHeader
+    for c in range(256):
+        for first, reserved, rhl in ((0x12, 0, 7), (0x10, 0xFF, 0), (0xF2, 0xA5, 255), (0x01, 0x01, 1), (0x11, 0x80, 64)):
+            octets = bytes([first, reserved, c, rhl])
+            bh = BasicHeader.decode_from_bytes(octets)
+            m, b = c >> 2, c & 3
+            got = [bh.lt.multiplier, bh.lt.base.value, bh.lt.get_value_in_millis(), bh.rhl]
+            ctx.count(1, "lt_code_decode_variant")
+            inp = {"op": "decode_octets", "octets": list(octets)}
+            if got[:3] != [m, b, m * UNITS[b]] or got[3] != rhl:
+                ctx.property_failure("lt_decode", inp, "decoded lifetime / hop limit differs from what the sender encoded",
+                                     [m, b, m * UNITS[b], rhl], got)
+            if bh.lt.get_value_in_seconds() * 1000 > m * UNITS[b]:
+                ctx.property_failure("lt_indicated", inp, "reported remaining lifetime exceeds the wire value",
+                                     m * UNITS[b], bh.lt.get_value_in_seconds() * 1000)
+            if bh.encode_to_bytes() != octets:
+                ctx.property_failure("lt_decode", inp, "basic header does not re-encode to the received octets",
+                                     list(octets), list(bh.encode_to_bytes()))
+            ctx.nontriv(("codev", c, first))
+
+
+PATHS = ("beacon", "shb", "gbc", "gac", "guc", "gbc_naf", "gac_naf", "gbc_rect", "gbc_elip", "gac_rect", "gac_elip",
+         "ls_request", "ls_retransmit", "guc_after_ls", "guc_after_ls_2nd", "ls_reply", "shb_after_traffic")
+
+
+SEC_PATHS = ("shb", "gbc", "gac", "gbc_naf", "gac_naf", "gbc_rect", "gac_elip", "shb_after_traffic")
+
+
+def check_origination_paths(ctx, hop_defaults, life_defaults, hop_values, lifetimes, paths=PATHS, secured=False):
+    """every way a packet ORIGINATES in the router, with MIB default lifetimes other than 60 s: besides the direct
+    requests, the non-area (greedy) branch of GBC/GAC (source outside the area), the other area shapes, the Location
+    Service request sent for a GeoUnicast request towards an unknown destination, its retransmission, the buffered
+    GeoUnicast packets released by the LS reply (first and second buffered request), the LS reply sent by the sought
+    station, and a request repeated on a router that has already sent and received traffic.
+    lifetimes are in ms (None = none requested).
+    secured: itsGnSecurity ENABLED, pass-through signer and verifier (the neighbour is learnt from a secured beacon), CAM
+    profile for SHB and DENM profile for GBC/GAC requests"""
+    from flexstack.geonet.service_access_point import (GNDataRequest, PacketTransportType, HeaderType,
+                                                       TopoBroadcastHST, GeoBroadcastHST, GeoAnycastHST,
+                                                       Area, CommonNH, TrafficClass)
+    from .stack import FakeTimer, VCLOCK, ls_reply_bytes, ls_request_bytes
+    ME, PEER, FAR = 0x0A0B0C0D0E01, 0x0A0B0C0D0E02, 0x0A0B0C0D0E09
+    here = Area(latitude=413800000, longitude=21100000, a=100, b=100, angle=0)
+    north = Area(latitude=414300000, longitude=21100000, a=100, b=60, angle=30)   # 5.5 km north of the ego position
+    cases = []     # (inp, pkt or None, multi?, requested hop limit, requested ms)
+
+    def mk(kind, h, life, dest=None, area=here):
+        t = kind.split("_")[0]
+        sub = kind.split("_")[1] if "_" in kind else ""
+        if t == "shb":
+            ptt = PacketTransportType(HeaderType.TSB, TopoBroadcastHST.SINGLE_HOP)
+        elif t == "gbc":
+            ptt = PacketTransportType(HeaderType.GEOBROADCAST, {"rect": GeoBroadcastHST.GEOBROADCAST_RECT,
+                                                                "elip": GeoBroadcastHST.GEOBROADCAST_ELIP}.get(
+                sub, GeoBroadcastHST.GEOBROADCAST_CIRCLE))
+        elif t == "gac":
+            ptt = PacketTransportType(HeaderType.GEOANYCAST, {"rect": GeoAnycastHST.GEOANYCAST_RECT,
+                                                              "elip": GeoAnycastHST.GEOANYCAST_ELIP}.get(
+                sub, GeoAnycastHST.GEOANYCAST_CIRCLE))
+        else:
+            ptt = PacketTransportType(HeaderType.GEOUNICAST)
+        extra = {}
+        if secured:
+            from flexstack.security.security_profiles import SecurityProfile
+            extra = {"its_aid": 36, "security_profile": SecurityProfile.COOPERATIVE_AWARENESS_MESSAGE if t == "shb"
+                     else SecurityProfile.DECENTRALIZED_ENVIRONMENTAL_NOTIFICATION_MESSAGE}
+        return GNDataRequest(upper_protocol_entity=CommonNH.BTP_B, packet_transport_type=ptt,
+                             traffic_class=TrafficClass(), length=3, data=b"abc", area=area, max_hop_limit=h,
+                             max_packet_lifetime=(None if life is None else life / 1000), destination=dest, **extra)
+
+    for dh in hop_defaults:
+        for dl in life_defaults:
+            for h in hop_values:
+                for life in lifetimes:
+                    for path in paths:
+                        if path in ("beacon", "ls_request", "ls_retransmit", "ls_reply") and \
+                                (h != hop_values[0] or life != lifetimes[0]):
+                            continue      # these packets do not depend on a request's hop limit / lifetime
+                        ll = CaptureLL()
+                        if secured:
+                            from flexstack.geonet.mib import GnSecurity
+                            router = make_router(ll, local_mid=ME, default_hop_limit=dh, ego=(413800000, 21100000),
+                                                 mib_kw={"itsGnDefaultPacketLifetime": dl,
+                                                         "itsGnSecurity": GnSecurity.ENABLED},
+                                                 sign_service=PassThroughSigner(), verify_service=PassThroughVerifier())
+                        else:
+                            router = make_router(ll, local_mid=ME, default_hop_limit=dh, ego=(413800000, 21100000),
+                                                 mib_kw={"itsGnDefaultPacketLifetime": dl})
+                        now = router_now_ms()
+                        bcn = bytearray(beacon_bytes(gn_addr(PEER), tst=now, lat=413900000, lon=21100000))
+                        if secured:
+                            bcn[0] = 0x12
+                        router.gn_data_indicate(bytes(bcn))
+                        inp = {"op": "originate_path", "secured": secured, "path": path, "max_hop_limit": h, "mib_default_hop_limit": dh,
+                               "mib_default_lifetime_s": dl, "max_packet_lifetime_ms": life}
+                        multi, from_request = True, True
+                        if path == "beacon":
+                            router.gn_data_request_beacon()
+                            multi, from_request = False, False
+                        elif path == "shb":
+                            router.gn_data_request(mk("shb", h, life))
+                            multi = False
+                        elif path == "shb_after_traffic":
+                            router.gn_data_request(mk("gbc", 9, 2000))
+                            router.gn_data_request(mk("shb", 5, 3000))
+                            router.gn_data_request_beacon()
+                            ll.sent.clear()
+                            router.gn_data_request(mk("shb", h, life))
+                            multi = False
+                        elif path in ("gbc", "gac", "gbc_rect", "gbc_elip", "gac_rect", "gac_elip"):
+                            router.gn_data_request(mk(path, h, life))
+                        elif path in ("gbc_naf", "gac_naf"):
+                            router.gn_data_request(mk(path[:3], h, life, area=north))
+                        elif path == "guc":
+                            router.gn_data_request(mk("guc", h, life, dest=gn_addr(PEER)))
+                        else:
+                            if path == "ls_reply":
+                                router.gn_data_indicate(ls_request_bytes((0, 5, PEER), 9, now, 413900000, 21100000,
+                                                                         (0, 5, ME)))
+                                from_request = False
+                            else:
+                                router.gn_data_request(mk("guc", h, life, dest=gn_addr(FAR)))
+                                if path == "ls_request":
+                                    from_request = False
+                                elif path == "ls_retransmit":
+                                    ll.sent.clear()
+                                    FakeTimer.run_until(VCLOCK.ms + 1000)
+                                    from_request = False
+                                else:
+                                    if path == "guc_after_ls_2nd":
+                                        router.gn_data_request(mk("guc", 77, 7000, dest=gn_addr(FAR)))
+                                        router.gn_data_request(mk("guc", h, life, dest=gn_addr(FAR)))
+                                    ll.sent.clear()
+                                    router.gn_data_indicate(ls_reply_bytes(
+                                        (0, 5, FAR), 3, router_now_ms(), 413900500, 21100000,
+                                        ((0, 5, ME), now, 413800000, 21100000)))
+                                    if path == "guc_after_ls_2nd":
+                                        ll.sent = ll.sent[2:] if len(ll.sent) == 3 else []
+                        ctx.count(1, ("path_sec_" if secured else "path_") + path)
+                        FakeTimer.reset()
+                        if len(ll.sent) != 1:
+                            ctx.property_failure("src_no_packet", inp, f"{len(ll.sent)} packets emitted where one is due")
+                            continue
+                        pkt = ll.sent[0]
+                        rhl, mhl, ltc = pkt[3], pkt[10], pkt[2]
+                        if secured and path != "beacon" and pkt[0] & 0x0F != 2:
+                            ctx.property_failure("src_not_secured", inp, "packet of a security-enabled station left without "
+                                                 "the secured next-header", 2, pkt[0] & 0x0F)
+                        if not multi:
+                            want = (1, 1)
+                        else:
+                            x = h if (from_request and h > 1) else dh
+                            want = (x, x)
+                        if (rhl, mhl) != want:
+                            ctx.property_failure("src_hops", inp, "hop limits of the originated packet differ from the rule",
+                                                 list(want), [rhl, mhl])
+                        want_ms = dl * 1000 if (life is None or not from_request) else life
+                        val = (ltc >> 2) * UNITS[ltc & 3]
+                        if val != spec_best(want_ms):
+                            ctx.property_failure(classify(want_ms), inp, "lifetime octet of the originated packet is not the "
+                                                 "largest representable value not exceeding the request / the MIB default",
+                                                 spec_best(want_ms), val)
+                        cases.append((inp, [rhl, mhl, ltc >> 2, ltc & 3],
+                                      (3, [2 if multi else 1, h if from_request else 0, dh]), (1, [want_ms])))
+                        ctx.nontriv(("path", secured, path, h, dh, dl, life))
+    if ctx.model.available and cases:
+        hops = ctx.model.batch(c[2] for c in cases)
+        lts = ctx.model.batch(c[3] for c in cases)
+        for (inp, got, _, ltreq), rh, rl in zip(cases, hops, lts):
+            if rh != got[:2]:
+                ctx.mismatch("Router source hop limits = Lifetime.src_hops", inp, rh, got[:2])
+            if rl != got[2:] and ltreq[1][0] < 1_000_000:
+                ctx.mismatch("lifetime of the originated packet = Lifetime.req_lt", inp, rl, got[2:])
+    if cases:
+        ctx.sample({"originate_path": cases[len(cases) // 2][0], "rhl_mhl_m_b": cases[len(cases) // 2][1]})
+
+
+IND_KINDS = ("shb", "tsb", "gbc", "gac", "guc")
+
+
+def check_indications(ctx, codes, pairs, secured=False, kinds=IND_KINDS):
+    """what the receiver reports to the upper layer: packets of every delivering type with every lifetime code through a
+    real Router; GNDataIndication.remaining_packet_lifetime (seconds) must not exceed the lifetime on the wire.
+    secured: the frame arrives with NH = secured packet and passes a pass-through verifier (the secured receive branch
+    rebuilds the Basic Header); RHL > MHL must be discarded there too"""
+    from . import stack
+    ME = (0, 5, 0x0A0B0C0D0E01)
+    src = (0, 5, 0x0A0B0C0D0E04)
+    area = (413800000, 21100000, 500, 500, 0)
+    reqs, obs = [], []
+    for kind in kinds:
+        for c in codes:
+            for (rhl, mhl) in pairs:
+                ll = CaptureLL()
+                if secured:
+                    from flexstack.geonet.mib import GnSecurity
+                    router = make_router(ll, local_mid=ME[2], ego=(413800000, 21100000),
+                                         mib_kw={"itsGnSecurity": GnSecurity.ENABLED}, verify_service=PassThroughVerifier())
+                else:
+                    router = make_router(ll, local_mid=ME[2], ego=(413800000, 21100000))
+                got = []
+                router.register_indication_callback(got.append)
+                now = router_now_ms()
+                if kind == "shb":
+                    pkt = stack.shb_bytes(src, now, 413800100, 21100100, b"xyz", lt_code=c)
+                elif kind == "tsb":
+                    pkt = stack.tsb_bytes(src, 5, now, 413800100, 21100100, b"xyz", lt_code=c)
+                elif kind in ("gbc", "gac"):
+                    pkt = stack.gbc_bytes(src, 5, now, 413800100, 21100100, area, b"xyz", ht=4 if kind == "gbc" else 3,
+                                          lt_code=c)
+                else:
+                    pkt = stack.guc_bytes(src, 5, now, 413800100, 21100100, (ME, now, 413800000, 21100000), b"xyz",
+                                          lt_code=c)
+                b = bytearray(pkt)
+                b[3], b[10] = rhl, mhl
+                if secured:
+                    b[0] = 0x12
+                try:
+                    router.gn_data_indicate(bytes(b))
+                except Exception:  # noqa: BLE001 - C04's question
+                    pass
+                ctx.count(1, ("ind_sec_" if secured else "ind_") + kind)
+                wire = (c >> 2) * UNITS[c & 3]
+                inp = {"op": "indication", "kind": kind, "code": c, "rhl": rhl, "mhl": mhl, "secured": secured}
+                learnt = router.location_table.get_entry(gn_addr(src[2], src[1])) is not None
+                if rhl > mhl:
+                    if got or learnt or ll.sent:
+                        ctx.property_failure("rx_rhl_gt_mhl", inp, "packet with RHL > MHL was not discarded", "discard",
+                                             {"delivered": len(got), "loct": learnt, "sent": len(ll.sent)})
+                    continue
+                if len(got) != 1:
+                    ctx.property_failure("rx_rhl_le_mhl", inp, "valid packet with RHL <= MHL was not delivered", "deliver",
+                                         len(got))
+                    continue
+                rpl = got[0].remaining_packet_lifetime
+                if rpl is not None and rpl * 1000 > wire:
+                    ctx.property_failure("lt_indicated", inp, "remaining lifetime reported to the upper layer exceeds the "
+                                         "lifetime on the wire", wire, rpl * 1000)
+                reqs.append((2, [c]))
+                obs.append((inp, -1 if rpl is None else rpl))
+                ctx.nontriv(("ind", kind, c, rhl, mhl, secured))
+    if ctx.model.available and reqs:
+        for (inp, rpl), r in zip(obs, ctx.model.batch(reqs)):
+            if r[3] != rpl:
+                ctx.mismatch("GNDataIndication.remaining_packet_lifetime = Lifetime.ind_lifetime_s", inp, r[3], rpl)
+
+
 def boundary_values():
     vals = set()
     for u in UNITS:
@@ -332,7 +660,11 @@ def run(ctx):
     ctx.rule = ("requested lifetimes (ms) through LT.set_value_in_millis and through the float path of "
                 "BasicHeader.initialize_with_mib_request_and_rhl, all 256 lifetime codes x 3 hop values through the "
                 "decoder, originated packets of a real Router for every kind x requested hop limit x MIB default, and "
-                "received packets over (RHL, MHL) pairs; a case is non-trivial when the wire lifetime is non-zero / the "
+                "received packets over (RHL, MHL) pairs; audit round: requests in seconds that are not whole milliseconds, "
+                "Basic Header variants around every code, every origination path of the router (LS request / retransmission / "
+                "reply, GUC released by the LS reply, greedy GBC / GAC, area shapes; MIB default lifetimes 1..999 s; secured "
+                "branches) and GN-DATA.indications of every delivering type x lifetime code (also through the secured receive "
+                "branch); a case is non-trivial when the wire lifetime is non-zero / the "
                 "packet was emitted / the code decoded; distinct by input tuple")
     for k in ctx.known:
         w = k["witness"]
@@ -351,6 +683,18 @@ def run(ctx):
         check_hops(ctx, (10, 3), (0, 1, 2, 10, 255), (None, 50, 999, 1000, 3200, 15000, 64000, 600000), secured=True)
         check_rx_hops(ctx, [(r, m) for r in (0, 1, 2, 9, 10, 11, 128, 254, 255) for m in (0, 1, 2, 10, 11, 255)])
         check_rx_hops_all_types(ctx, [(2, 1), (1, 1), (1, 0), (255, 254), (10, 10), (3, 10), (11, 10)])
+        # audit round (kept after the first-generation cases: a failure reported from here was missed by them)
+        check_code_variants(ctx)
+        check_lt_seconds(ctx, float_requests(ctx.rng, 4000))
+        check_origination_paths(ctx, (10, 3), (60, 33), (0, 1, 2, 9, 255), (None, 0, 999, 64000))
+        check_origination_paths(ctx, (7,), (1, 5, 59, 63, 64, 100, 599, 600, 630, 999), (1,), (None,))
+        check_origination_paths(ctx, (ctx.rng.randrange(1, 256),), (ctx.rng.randrange(1, 1000),),
+                                (ctx.rng.randrange(2, 256),), (ctx.rng.randrange(0, 700_000),))
+        check_origination_paths(ctx, (10,), (60, 45), (1, 6), (None, 1500), paths=SEC_PATHS, secured=True)
+        check_indications(ctx, range(256), [(1, 1), (3, 10)])
+        check_indications(ctx, (0, 1, 4, 5, 6, 7, 0xF1, 0xF2, 0xFC, 0xFF), [(2, 1), (11, 10), (255, 255), (0, 0)])
+        check_indications(ctx, sorted({0, 1, 2, 3, 5, 0x4E, 0xF1, 0xFF} | {ctx.rng.randrange(256) for _ in range(24)}),
+                          [(1, 1), (2, 1), (5, 9), (10, 9)], secured=True)
         ctx.exhaustive = False
     else:
         check_lt_range(ctx, 0, 7_000_001, False)
@@ -361,6 +705,15 @@ def run(ctx):
         check_rx_hops(ctx, [(r, m) for r in range(0, 256, 5) for m in range(0, 256, 5)] +
                       [(r, r + d) for r in range(256) for d in (-1, 0, 1) if 0 <= r + d < 256])
         check_rx_hops_all_types(ctx, [(r, r + d) for r in (0, 1, 2, 5, 10, 128, 254, 255) for d in (-1, 0, 1) if 0 <= r + d < 256])
+        check_code_variants(ctx)
+        check_lt_seconds(ctx, float_requests(ctx.rng, 200_000))
+        check_origination_paths(ctx, (10, 1, 3, 255), (60, 33, 7), (0, 1, 2, 3, 9, 100, 255),
+                                (None, 0, 49, 50, 999, 1000, 3200, 64000, 600000))
+        check_origination_paths(ctx, (7,), range(1, 1000), (1,), (None,))
+        check_origination_paths(ctx, (10, 4), (60, 45, 700), (0, 1, 2, 6, 255), (None, 0, 999, 1500, 64000), paths=SEC_PATHS,
+                                secured=True)
+        check_indications(ctx, range(256), [(1, 1), (3, 10), (10, 10), (255, 255), (0, 0), (0, 7), (2, 1), (11, 10)])
+        check_indications(ctx, range(256), [(1, 1), (2, 1), (5, 9), (10, 9), (255, 255)], secured=True)
         ctx.exhaustive = True
 
 
@@ -379,6 +732,20 @@ def replay(ctx, data):
                    secured=bool(inp.get("secured")))
     elif inp.get("op") == "receive_shb":
         check_rx_hops(ctx, [(inp["rhl"], inp["mhl"])])
+    elif inp.get("op") == "receive":
+        check_rx_hops_all_types(ctx, [(inp["rhl"], inp["mhl"])])
+    elif inp.get("op") == "lt_request_seconds":
+        x = inp["seconds"]
+        check_lt_seconds(ctx, [x if isinstance(x, int) else float.fromhex(x)])
+    elif inp.get("op") == "decode_octets":
+        check_code_variants(ctx)
+    elif inp.get("op") == "originate_path":
+        check_origination_paths(ctx, (inp["mib_default_hop_limit"],), (inp["mib_default_lifetime_s"],),
+                                (inp["max_hop_limit"],), (inp["max_packet_lifetime_ms"],), paths=(inp["path"],),
+                                secured=bool(inp.get("secured")))
+    elif inp.get("op") == "indication":
+        check_indications(ctx, (inp["code"],), [(inp["rhl"], inp["mhl"])], secured=bool(inp.get("secured")),
+                          kinds=(inp["kind"],))
     bad = ctx.failures or ctx.mismatches or ctx.known_hits
     print("REPRODUCED" if bad else "NOT REPRODUCED")
     for r in (ctx.failures + ctx.mismatches + list(ctx.known_hits.values()))[:3]:
